@@ -152,6 +152,25 @@ func c18Doc(g *Gen, text string, o normOpts, tags ...string) {
 			if err := c.Unpack(&t, opts...); err != nil {
 				msgs = append(msgs, err.Error())
 			}
+			if has, _ := c.Has("zz_null", -1, opts...); has {
+				// settings that are null in the file, where a value is required
+				var t3 struct {
+					F int `config:"zz_null" validate:"required"`
+				}
+				if err := c.Unpack(&t3, opts...); err != nil {
+					msgs = append(msgs, err.Error())
+				}
+				var t4 struct {
+					O struct {
+						I struct {
+							B int `config:"b" validate:"required"`
+						} `config:"inner"`
+					} `config:"zz_nobj"`
+				}
+				if err := c.Unpack(&t4, opts...); err != nil {
+					msgs = append(msgs, err.Error())
+				}
+			}
 			if has, _ := c.Has("zz_obj.mid", -1, opts...); has && o.Sep == "." {
 				// an object that exists only because a dotted key was split, read as a number
 				if _, err := c.Int("zz_obj.mid", -1, opts...); err != nil {
@@ -312,7 +331,7 @@ func genC18(g *Gen) {
 			}
 			b.WriteString(sp + j.encodeStr(key) + ": " + t + "," + sp)
 		}
-		b.WriteString(`"zz_obj.mid.leaf": 1, "zz_fault": "notanumber"}`)
+		b.WriteString(`"zz_obj.mid.leaf": 1, "zz_fault": "notanumber", "zz_null": null, "zz_nobj": {"inner": null}}`)
 		o := normOpts{}
 		if r.Bool() {
 			o.Sep = "."
